@@ -323,6 +323,15 @@ def _run_task(args):
         # undecided (never a violation, never a checker fault)
         rec.record('%s/engine' % taskname, [], 'Pκ', 'undecided', 'engine', time.time() - t, 'outside the symbolic model while setting up the task: %s' % ex)
         fault = None
+    except AttributeError as ex:
+        import re as _re
+        if _re.search(r"has no attribute '_[A-Za-z]", str(ex)):
+            # a contract reads a private field of a chi object (ghost-state / representation predicates) that the tree under check no
+            # longer has: the representation changed, which is not a violation of a property; the obligations of this task are undecided
+            rec.record('%s/representation' % taskname, [], 'Pκ', 'undecided', 'engine', time.time() - t, 'a private field read by the contract does not exist in this tree: %s' % ex)
+            fault = None
+        else:
+            fault = 'task %s crashed: %s\n%s' % (taskname, ex, traceback.format_exc()[-1500:])
     except Exception as ex:
         fault = 'task %s crashed: %s\n%s' % (taskname, ex, traceback.format_exc()[-1500:])
     return {'task': taskname, 'obs': rec.obs, 'bounded': rec.bounded, 'functions': sorted(rec.functions),
